@@ -2,26 +2,10 @@
   QV.Proofs.ZoneFile.Rdata — `parse_rdata` on the typed presentation of RDATA (C23): one lemma
   `parseRdata_render_<kind>` per syntax.
 -/
-import QV.Proofs.ZoneFile.Records
+import QV.Proofs.ZoneFile.Fields
 
 namespace QV.ZF
 open QV QV.Spec.ZF
-
-/-! ### texts that start a field -/
-
-/-- the text begins with an octet that starts a field -/
-def Starts (X : List UInt8) : Prop := ∃ c t, X = c :: t ∧ fieldStart c
-
-theorem Starts.append {X : List UInt8} (h : Starts X) (rest : List UInt8) : Starts (X ++ rest) := by
-  obtain ⟨c, t, rfl, hc⟩ := h
-  exact ⟨c, t ++ rest, rfl, hc⟩
-
-theorem Starts.ne_nil {X : List UInt8} (h : Starts X) : X ≠ [] := by
-  obtain ⟨c, t, rfl, _⟩ := h; simp
-
-theorem starts_decimal (n : Nat) : Starts (decimal n) := by
-  obtain ⟨d, ds, hd, hs⟩ := decimal_head n
-  exact ⟨d, ds, hd, hs⟩
 
 /-! ### names as fields -/
 
@@ -278,6 +262,108 @@ theorem parseRdata_soa_text (cls : Nat) (T1 w1 : List UInt8) (k1 : Nat) (T2 w2 :
     mkRdata_ok (w1 ++ w2 ++ u32be s1 ++ u32be s2 ++ u32be s3 ++ u32be s4 ++ u32be s5)
       (by have := h1.len; have := h2.len; simp [u32be]; omega)]
 
+/-- IN A: dotted quad -/
+theorem parseRdata_a_text (a b c d : Nat) (ha : a ≤ 255) (hb : b ≤ 255) (hcc : c ≤ 255) (hd : d ≤ 255) :
+    parseRdata ctx 1 1 ⟨sep ++ ((decimal a ++ 46 :: (decimal b ++ 46 :: (decimal c ++ 46 :: decimal d))) ++
+        (ws ++ (cmt ++ 10 :: r))), line, false⟩ =
+      .ok ([UInt8.ofNat a, UInt8.ofNat b, UInt8.ofNat c, UInt8.ofNat d], ⟨r, line + 1, false⟩) := by
+  have hEnd := atFieldEnd_eol ws cmt r hws hc
+  have harm : findArm 1 1 = some "parse_in_a_rdata" := by decide
+  have hlen : ∀ n, n ≤ 255 → (decimal n).length ≤ 3 := by
+    intro n hn; have := (octet_decimal_facts n (by omega)).2.1; simpa using this
+  have hplain : ∀ x ∈ decimal a ++ 46 :: (decimal b ++ 46 :: (decimal c ++ 46 :: decimal d)), plainOctet x = true := by
+    intro x hx
+    simp only [List.mem_append, List.mem_cons] at hx
+    rcases hx with h | rfl | h | rfl | h | rfl | h
+    all_goals first | exact decimal_plain _ _ h | decide
+  rw [parseRdata_typed ctx 1 1 _ harm sep hsep _ _ ((starts_decimal a).append _) (decimal_not_bh a _) hEnd line false]
+  show inARdataBody _ = _
+  unfold inARdataBody
+  simp only [bind, P.bind,
+    readField_plain parseIpv4 .InvalidIpv4 _ _ _ hplain
+      (by have := hlen a ha; have := hlen b hb; have := hlen c hcc; have := hlen d hd; simp; omega) hEnd
+      (parseIpv4_render a b c d (by omega) (by omega) (by omega) (by omega)) line false,
+    expectEol_eol ws cmt r hws hc,
+    mkRdata_ok [UInt8.ofNat a, UInt8.ofNat b, UInt8.ofNat c, UInt8.ofNat d] (by simp)]
+
+/-- HINFO: two character-strings -/
+theorem parseRdata_hinfo_text (cls : Nat) (s1 s2 : PString) (h1 : WFString s1) (h2 : WFString s2)
+    (hnb : ¬ [92, 35] <+: stringText s1) :
+    parseRdata ctx cls 13 ⟨sep ++ (stringText s1 ++ (sep ++ (stringText s2 ++ (ws ++ (cmt ++ 10 :: r))))), line, false⟩ =
+      .ok (stringWire s1 ++ stringWire s2, ⟨r, line + stringLines s1 + stringLines s2 + 1, false⟩) := by
+  have hEnd := atFieldEnd_eol ws cmt r hws hc
+  have harm : findArm cls 13 = some "parse_hinfo_rdata" := by
+    simp [findArm, Gen.parseRdataArms, armMatches, List.find?]
+  rw [parseRdata_typed ctx cls 13 _ harm sep hsep _ _ (stringText_starts s1 h1) hnb (atFieldEnd_sep sep _ hne hsep)
+    line false]
+  show hinfoRdataBody _ = _
+  unfold hinfoRdataBody
+  have hl1 : (stringOctets s1).length ≤ 255 := by simpa [stringOctets] using h1.len
+  have hl2 : (stringOctets s2).length ≤ 255 := by simpa [stringOctets] using h2.len
+  simp only [bind, P.bind, parseCharacterString_render s1 h1 _ (atFieldEnd_sep sep _ hne hsep) line false,
+    skipTo _ sep _ hsep ((stringText_starts s2 h2).append _) _ false,
+    parseCharacterString_render s2 h2 _ hEnd _ false, expectEol_eol ws cmt r hws hc,
+    mkRdata_ok (UInt8.ofNat (stringOctets s1).length :: stringOctets s1 ++
+      UInt8.ofNat (stringOctets s2).length :: stringOctets s2) (by simp; omega)]
+  simp [stringWire, stringOctets]
+
+/-- the loop of TXT: one or more character-strings -/
+theorem txtLoop_render (sl : Nat) (s : PString) (ss : List PString) (hwf : ∀ x ∈ s :: ss, WFString x)
+    (acc : List UInt8) (hlen : acc.length + ((s :: ss).flatMap stringWire).length ≤ 65535) (line' : Nat) :
+    txtLoop sl ⟨stringText s ++ ((ss.flatMap fun x => sep ++ stringText x) ++ (ws ++ (cmt ++ 10 :: r))), line', false⟩ acc =
+      .ok (acc.reverse ++ (s :: ss).flatMap stringWire,
+           ⟨r, line' + (stringLines s + (ss.map stringLines).sum) + 1, false⟩) := by
+  induction ss generalizing s acc line' with
+  | nil =>
+    have hEnd := atFieldEnd_eol ws cmt r hws hc
+    have hs := hwf s (by simp)
+    rw [txtLoop.eq_def]
+    simp only [List.flatMap_nil, List.nil_append, parseCharacterString_render s hs _ hEnd line' false]
+    have e : ¬ acc.length + (stringOctets s).length + 1 > 65535 := by
+      simp [stringWire] at hlen; omega
+    simp only [e, ↓reduceIte, fieldOrEol_eol ws cmt r hws hc]
+    simp [stringWire, stringOctets]
+  | cons x ss ih =>
+    have hs := hwf s (by simp)
+    have hx := hwf x (by simp)
+    have e0 : stringText s ++ (((x :: ss).flatMap fun x => sep ++ stringText x) ++ (ws ++ (cmt ++ 10 :: r))) =
+        stringText s ++ (sep ++ (stringText x ++ ((ss.flatMap fun x => sep ++ stringText x) ++ (ws ++ (cmt ++ 10 :: r))))) := by
+      simp
+    rw [e0, txtLoop.eq_def]
+    simp only [parseCharacterString_render s hs _ (atFieldEnd_sep sep _ hne hsep) line' false]
+    have e : ¬ acc.length + (stringOctets s).length + 1 > 65535 := by
+      simp [stringWire] at hlen; omega
+    obtain ⟨c, t, hct, hcs⟩ := (stringText_starts x hx).append
+      ((ss.flatMap fun x => sep ++ stringText x) ++ (ws ++ (cmt ++ 10 :: r)))
+    simp only [e, ↓reduceIte]
+    rw [hct, fieldOrEol_gap true sep hsep c t hcs]
+    have hsepl : 0 < sep.length := List.length_pos_iff.mpr hne
+    have hprog : (c :: t).length < (stringText s ++ (sep ++ c :: t)).length := by simp; omega
+    simp only [hprog, ↓reduceIte]
+    rw [← hct]
+    rw [ih x (fun y hy => hwf y (by simp [hy])) _ (by
+      simp [stringWire] at hlen ⊢; omega)]
+    simp [stringWire, stringOctets, Nat.add_assoc]
+
+/-- TXT: one or more character-strings -/
+theorem parseRdata_txt_text (cls : Nat) (s : PString) (ss : List PString) (hwf : ∀ x ∈ s :: ss, WFString x)
+    (hnb : ¬ [92, 35] <+: stringText s) (hlen : ((s :: ss).flatMap stringWire).length ≤ 65535) :
+    parseRdata ctx cls 16 ⟨sep ++ (stringText s ++ ((ss.flatMap fun x => sep ++ stringText x) ++
+        (ws ++ (cmt ++ 10 :: r)))), line, false⟩ =
+      .ok ((s :: ss).flatMap stringWire, ⟨r, line + (stringLines s + (ss.map stringLines).sum) + 1, false⟩) := by
+  have harm : findArm cls 16 = some "parse_txt_rdata" := by
+    simp [findArm, Gen.parseRdataArms, armMatches, List.find?]
+  have hE : atFieldEnd ((ss.flatMap fun x => sep ++ stringText x) ++ (ws ++ (cmt ++ 10 :: r))) = true := by
+    cases ss with
+    | nil => simpa using atFieldEnd_eol ws cmt r hws hc
+    | cons x ss => simp only [List.flatMap_cons, List.append_assoc]; exact atFieldEnd_sep sep _ hne hsep
+  rw [parseRdata_typed ctx cls 16 _ harm sep hsep _ _ (stringText_starts s (hwf s (by simp))) hnb hE line false]
+  show txtRdataBody _ = _
+  unfold txtRdataBody
+  simp only [bind, P.bind, getLine,
+    txtLoop_render sep ws cmt r hne hsep hws hc line s ss hwf [] (by simpa using hlen) line]
+  simp only [List.reverse_nil, List.nil_append, mkRdata_ok _ hlen]
+
 end kinds
 
 /-! ### all kinds together -/
@@ -285,19 +371,18 @@ end kinds
 /-- the text does not begin with the RFC 3597 marker `\#` (write a leading `#` as `\035`) -/
 abbrev notBh (T : List UInt8) : Prop := ¬ [92, 35] <+: T
 
-/-- what the writer of RDATA must respect: numbers in range, names well formed; kinds not yet
-    covered by the proof are excluded here -/
+/-- what the writer of RDATA must respect: numbers in range, names and strings well formed -/
 def WFRdata : PRdata → Prop
   | .generic rd => rd.length ≤ 65535
-  | .a .. => False
+  | .a a b c d => a ≤ 255 ∧ b ≤ 255 ∧ c ≤ 255 ∧ d ≤ 255
   | .name n => WFName n ∧ notBh (nameText n)
   | .mx p n => p ≤ 65535 ∧ WFName n
   | .soa m r s1 s2 s3 s4 s5 => WFName m ∧ WFName r ∧ notBh (nameText m) ∧ s1 ≤ 4294967295 ∧ s2 ≤ 4294967295 ∧
       s3 ≤ 4294967295 ∧ s4 ≤ 4294967295 ∧ s5 ≤ 4294967295
   | .minfo r e => WFName r ∧ WFName e ∧ notBh (nameText r)
   | .srv p w port n => p ≤ 65535 ∧ w ≤ 65535 ∧ port ≤ 65535 ∧ WFName n
-  | .txt .. => False
-  | .hinfo .. => False
+  | .txt s ss => (∀ x ∈ s :: ss, WFString x) ∧ notBh (stringText s) ∧ ((s :: ss).flatMap stringWire).length ≤ 65535
+  | .hinfo c o => WFString c ∧ WFString o ∧ notBh (stringText c)
 
 /-- **RDATA.**  The text of well-formed RDATA of the right kind for `(cls, ty)` is read back by
     `parse_rdata` as the RDATA it denotes (RFC 3597 form: provided that is valid for the type) -/
@@ -315,7 +400,14 @@ theorem parseRdata_render (ctx : Ctx) (hctx : CtxWF ctx) (cls ty : Nat) (h41 : t
     subst hw
     have := parseRdata_generic ctx cls ty h41 h250 sep g ws cmt r hne hsep hwf (hv g rfl) hws hc line
     simpa [rdataText, rdataLines] using this
-  | a a b c d => exact hwf.elim
+  | a a b c d =>
+    obtain ⟨ha, hb, hcc, hd⟩ := hwf
+    simp only [kindOK, Bool.and_eq_true, beq_iff_eq] at hk
+    obtain ⟨rfl, rfl⟩ := hk
+    simp only [rdataWire, Option.some.injEq] at hw
+    subst hw
+    have := parseRdata_a_text ctx sep ws cmt r hne hsep hws hc line a b c d ha hb hcc hd
+    simpa [rdataText, rdataLines] using this
   | name n =>
     obtain ⟨hn, hnb⟩ := hwf
     exact parseRdata_name_text ctx sep ws cmt r hne hsep hws hc line cls ty (by simpa [kindOK] using hk)
@@ -366,7 +458,21 @@ theorem parseRdata_render (ctx : Ctx) (hctx : CtxWF ctx) (cls ty : Nat) (h41 : t
     have := parseRdata_srv_text ctx sep ws cmt r hne hsep hws hc line p wt port hp hwt hport (nameText n) wn
       (nameLines n) (nameText_ok ctx.origin hO n hn wn hwn)
     simpa [rdataText, rdataLines, u16Wire, u16be] using this
-  | txt s ss => exact hwf.elim
-  | hinfo c o => exact hwf.elim
+  | txt s ss =>
+    obtain ⟨hss, hnb, hlen⟩ := hwf
+    simp only [kindOK, beq_iff_eq] at hk
+    subst hk
+    simp only [rdataWire, Option.some.injEq] at hw
+    subst hw
+    have := parseRdata_txt_text ctx sep ws cmt r hne hsep hws hc line cls s ss hss hnb hlen
+    simpa [rdataText, rdataLines] using this
+  | hinfo c o =>
+    obtain ⟨h1, h2, hnb⟩ := hwf
+    simp only [kindOK, beq_iff_eq] at hk
+    subst hk
+    simp only [rdataWire, Option.some.injEq] at hw
+    subst hw
+    have := parseRdata_hinfo_text ctx sep ws cmt r hne hsep hws hc line cls c o h1 h2 hnb
+    simpa [rdataText, rdataLines, Nat.add_assoc] using this
 
 end QV.ZF
